@@ -669,6 +669,53 @@ def rule_next_offset(ctx, px):
     ctx.ob(R, pl, pl.node, unparse(pl.node.body[-1]) == "return self._offset + 1", "python legacy next_offset", text="py-legacy")
 
 
+def rule_mask_compare(ctx, px):
+    R = "mask-compare"
+    ctx.rep.rule(R, "a value obtained by masking attribute bits (`x = attrs & MASK`) is only compared with constants that the mask can produce "
+                    "(C & MASK == C): comparing the raw timestamp-type bit (0 or 8) with the normalised constant 1 is never true, so the "
+                    "LogAppendTime handling of one implementation silently disappears")
+    n_cmp = 0
+    funcs = [(f, True) for q, f in px.funcs.items() if ".LegacyRecordBatch." in q or ".DefaultRecordBatch." in q or ".LegacyRecord." in q or ".DefaultRecord." in q]
+    funcs += [(f, False) for q, f in ctx.repo.funcs.items() if q.startswith((PYD + "._DefaultRecordBatchPy", PYL + "._LegacyRecordBatchPy"))]
+    consts_py = {}
+    for cname in ("DefaultRecordBase", "LegacyRecordBase"):
+        mod = ctx.repo.module(PYD if cname.startswith("Default") else PYL)
+        env = ConstEnv(mod.tree, cname)
+        for k, v in env.vals.items():
+            if isinstance(v, int) and not isinstance(v, bool):
+                consts_py[f"self.{k}"] = v
+    for fi, is_px in funcs:
+        masked = {}
+        for n in ast.walk(fi.node):
+            if isinstance(n, ast.Assign) and len(n.targets) == 1 and isinstance(n.targets[0], ast.Name):
+                v = strip_casts(n.value)
+                if isinstance(v, ast.BinOp) and isinstance(v.op, ast.BitAnd):
+                    for side in (v.left, v.right):
+                        side = strip_casts(side)
+                        mval = side.value if isinstance(side, ast.Constant) and isinstance(side.value, int) else consts_py.get(unparse(side))
+                        if isinstance(mval, int) and not isinstance(mval, bool):
+                            nm = n.targets[0].id
+                            others = [m for m in ast.walk(fi.node) if isinstance(m, (ast.Assign, ast.AugAssign)) and m is not n and any(
+                                isinstance(t, ast.Name) and t.id == nm for t in (m.targets if isinstance(m, ast.Assign) else [m.target]))]
+                            if not others:
+                                masked[nm] = mval
+        for n in ast.walk(fi.node):
+            if isinstance(n, ast.Compare) and len(n.ops) == 1 and isinstance(n.ops[0], (ast.Eq, ast.NotEq)):
+                l, r = strip_casts(n.left), strip_casts(n.comparators[0])
+                for a, b in ((l, r), (r, l)):
+                    if isinstance(a, ast.Name) and a.id in masked:
+                        cval = b.value if isinstance(b, ast.Constant) and isinstance(b.value, int) else consts_py.get(unparse(b))
+                        if isinstance(cval, int) and not isinstance(cval, bool):
+                            n_cmp += 1
+                            ok = (cval & masked[a.id]) == cval
+                            msg = f"`{unparse(n)}`: `{a.id}` is `... & {masked[a.id]:#x}` and can never equal {cval}"
+                            if is_px:
+                                ob(ctx, R, fi, n.lineno, f"cmp:{a.id}:{cval}", ok, msg)
+                            else:
+                                ctx.ob(R, fi, n, ok, msg, text=f"cmp:{a.id}:{cval}")
+    ctx.anchor(n_cmp >= 1, "comparisons of masked attribute values in the record readers")
+
+
 def run(ctx):
     rep = ctx.rep
     rep.explanation = ("C09: the shape-level part of codec agreement: header layout stated five times and compared with the format's reference "
@@ -683,6 +730,7 @@ def run(ctx):
     rule_crc_table(ctx)
     rule_refuse_pure(ctx, px)
     rule_next_offset(ctx, px)
+    rule_mask_compare(ctx, px)
     rep.nd("value-level round-trip for all record sequences (varint arithmetic, timestamps beyond int32 deltas, compression codecs)")
     rep.nd("byte-identical output of the two builders (they differ by design at the batch-size boundary and in the compression fallback)")
     rep.nd("size accounting formulas (size_of / _size_of_body) term by term")
